@@ -63,7 +63,8 @@ def definition(d):
                                   tuple(ksort(s) for s in sy.get('inputs', [])), ksort(sy['sort']), attrs))
     for r in d['rules']:
         so = ksort(r['sort'])
-        sents.append(K.Axiom((), K.Rewrites(so, K.And(so, (kterm(r['l']), K.Top(so))), K.And(so, (kterm(r['r']), K.Top(so))))))
+        svars = (K.SortVar(r['sort'][1:]),) if r['sort'].startswith('$') else ()      # axiom{R} \\rewrites{R}(...)
+        sents.append(K.Axiom(svars, K.Rewrites(so, K.And(so, (kterm(r['l']), K.Top(so))), K.And(so, (kterm(r['r']), K.Top(so))))))
     return K.Definition((K.Module(d.get('name', 'M'), tuple(sents)),))
 
 
